@@ -133,3 +133,80 @@ Definition relink_corr (b0 b r : bytes) (addr : N) : N :=
       if fields_eqb (pick v) (pick fr) then 0 else 1
   | _, _, _ => 8
   end.
+
+(* ---------- no address is copied verbatim: classification of every row of the regenerated table by what the
+   reader does with addresses.
+   * simple rows (fread into the struct): the member's C type holds no address, except embedded reb_particle records;
+   * array / fixed rows: the member itself is freshly (re)allocated by the reader (realloc / malloc in the pointer
+     branches of reb_input_fields, i.e. owned by the new simulation); the ELEMENTS hold no address, or are records
+     whose address-valued members are all re-linked by a regenerated fix-up loop (reader_relinks);
+   * audited exceptions: records of struct reb_particle in ri_whfast.p_jh / ri_whfast512.pjh0 are copied bytewise
+     including their c/ap/sim members, which hold no address (p_jh is zeroed on allocation, the transforms write value
+     members only; pjh0 lives in the zero-initialised struct) - checked on every library stream by the searcher. *)
+Open Scope N_scope.
+Definition has_ptr (ty : string) : bool :=
+  match find (fun e => String.eqb (fst e) ty) type_has_pointer with Some e => snd e | None => true end.
+
+Definition verbatim_audited : list string := ["ri_whfast.p_jh"%string; "ri_whfast512.pjh0"%string].
+
+Inductive addr_class := NoAddress | FreshAllocation | FreshAndRelinked | AuditedZero | COPIES_ADDRESS.
+
+Definition row_class (d : desc) : addr_class :=
+  if negb (writes_member (d_dt d)) then NoAddress else
+  match member_of sim_members (d_member d) with
+  | None => COPIES_ADDRESS
+  | Some m =>
+      if is_simple (d_dt d) then
+        match m_kind m with
+        | KPtr | KFunPtr => COPIES_ADDRESS
+        | KStruct | KArr => if has_ptr (m_tyname m)
+                            then (if existsb (String.eqb (d_name d)) verbatim_audited then AuditedZero else COPIES_ADDRESS)
+                            else NoAddress
+        | _ => NoAddress
+        end
+      else (* pointer dtypes: the member is a pointer (or reb_dp7 of pointers) that the reader allocates itself *)
+        match d_dt d with
+        | DDp7 => FreshAllocation                                   (* seven double arrays *)
+        | _ => if has_ptr (m_tyname m)
+               then (if existsb (fun r => String.eqb (fst (fst r)) (d_name d)) reader_relinks then FreshAndRelinked
+                     else if existsb (String.eqb (d_name d)) verbatim_audited then AuditedZero else COPIES_ADDRESS)
+               else FreshAllocation
+        end
+  end.
+
+Definition class_ok (c : addr_class) : bool := match c with COPIES_ADDRESS => false | _ => true end.
+
+Lemma gen_no_verbatim_address : forallb (fun d => class_ok (row_class d)) (live table) = true.
+Proof. vm_compute. reflexivity. Qed.
+
+(* the rows in each class, for the record (computed) *)
+Definition rows_of (c : addr_class) : list string :=
+  map d_name (filter (fun d => match row_class d, c with
+                               | FreshAndRelinked, FreshAndRelinked | AuditedZero, AuditedZero => true | _, _ => false end) (live table)).
+Lemma gen_relinked_and_audited_rows :
+  rows_of FreshAndRelinked = ["particles"%string; "var_config"%string] /\
+  rows_of AuditedZero = ["ri_whfast.p_jh"%string; "ri_whfast512.pjh0"%string].
+Proof. vm_compute. split; reflexivity. Qed.
+
+(* every pointer-valued member of struct reb_simulation that is NOT the member of a table row is never written by the
+   reader model (writes only produces keys of table rows and their count members): it keeps the value of
+   reb_simulation_init, i.e. NULL - so nothing outside the table can alias the source either *)
+Lemma reader_writes_only_row_members : forall legacy tbl f k v, In (k, v) (writes legacy tbl f) ->
+  (exists d, find_desc tbl (f_type f) = Some d /\ (fst k = d_member d \/ fst k = d_count d)) \/
+  fst k = "max_radius0"%string \/ fst k = "max_radius1"%string.
+Proof.
+  intros legacy tbl f k v H. unfold writes in H.
+  destruct (find_desc tbl (f_type f)) as [d|] eqn:E.
+  - assert (Hparts : forall ks q pl, In (k, v) (split_parts ks q pl) -> In k ks).
+    { induction ks; intros q pl Hin; cbn [split_parts] in Hin; [contradiction|].
+      destruct Hin as [Hin|Hin]; [inversion Hin; left; reflexivity | right; eapply IHks; eauto]. }
+    assert (Hpk : In k (parts d) -> fst k = d_member d).
+    { unfold parts. destruct (d_dt d); cbn [map In]; intros Hk; repeat (destruct Hk as [<-|Hk]; [reflexivity|]); contradiction. }
+    destruct (d_dt d) eqn:Edt;
+      try (destruct H as [H|[]]; inversion H; left; exists d; split; auto; left; reflexivity);
+      try (apply in_app_or in H; destruct H as [H|[H|[]]];
+           [ left; exists d; split; auto; left; apply Hpk; eapply Hparts; eauto
+           | inversion H; left; exists d; split; auto; right; reflexivity ]);
+      try (destruct (f_type f =? legacy); [destruct H as [H|[H|[]]]; inversion H; auto | contradiction]).
+  - destruct (f_type f =? legacy); [destruct H as [H|[H|[]]]; inversion H; auto | contradiction].
+Qed.
